@@ -54,7 +54,7 @@ class JoinableStringList:
     """
 
     _pattern_quoted_string = re.compile(r'(?:\'(?:[^\']|\'\')*\')|(?:"(?:[^"]|"")*")')
-    _pattern_chunk_separator = re.compile(r'(\s|\)(?!%)|\n)')
+    _pattern_chunk_separator = re.compile(r'(\s|(?<!/)\)(?!%)|\n)')
 
     def __init__(self, items, sep, width, cont, separable=True):
         super().__init__()
